@@ -21,6 +21,9 @@ REWRITES = [
             'match tag.get_attribute(&local_name!("content")) { Some(__c) => extract_a_character_encoding_from_a_meta_element(__c), None => None }', only=HEAD, min_count=1),
 ] + [rw for rw in u_table.REWRITES if not (rw.only and all(o.startswith('TreeBuilder::step__') for o in rw.only))] + [
     Rewrite('R1-receiver', r'(fn \w+(?:<[^>]*>)?\(\s*)&self\b', r'\1&mut self', only=('TreeBuilder::insert_foreign_element', 'TreeBuilder::attach_declarative_shadow')),
+    # R37: the attribute scan of should_attach_declarative_shadow through a model function; `Vec::first` through a glue function
+    Rewrite('R37-any', r'vec_any\(&tag\.attrs, \|attr\| \{.*?\}\)', 'attrs_any_shadowrootmode(&tag.attrs)', flags=re.S, only=('TreeBuilder::should_attach_declarative_shadow',), min_count=1),
+    Rewrite('R38-refmap', r'self\.open_elems\.borrow\(\)\.first\(\)', 'vec_first(&self.open_elems.borrow())', only=('TreeBuilder::should_attach_declarative_shadow',), min_count=1),
     # R38: `Ref<Option<Handle>>.clone().unwrap()` (clone of the Option) through the Option glue function
     Rewrite('R38-refmap', r'self\.context_elem\.borrow\(\)\.clone\(\)\.unwrap\(\)', 'opt_cloned(self.context_elem.borrow().as_ref()).unwrap()', only=HEAD, min_count=1),
     # R41 (see U-modes): the local closure `anything_else` inlined through a local macro
@@ -36,7 +39,7 @@ def tb(name, **kw):
 
 PARTS = u_inbody.BASE + [
     Prelude('head.spec.rs'),
-    tb('insert_foreign_element'), tb('attach_declarative_shadow'),
+    tb('insert_foreign_element'), tb('attach_declarative_shadow'), tb('should_attach_declarative_shadow'),
     Fragment(R, 'step', 'TreeBuilder', r'InsertionMode::InHead => \{', 'fn step__in_head(&mut self, token: Token) -> ProcessResult', 'step__in_head', wrap='impl TreeBuilder'),
     Raw('} // verus!\nfn main() {}'),
 ]
